@@ -788,9 +788,24 @@ func c09R2R3(c *Ctx) {
 				case *ssa.Send:
 					isSend = endsInField(x.Chan, fQ, false)
 				case *ssa.Select:
-					for _, st := range x.States {
+					for k, st := range x.States {
 						if st.Dir == types.SendOnly && endsInField(st.Chan, fQ, false) {
-							isSend = true
+							// the send happened only if this case was the one chosen on the path
+							chosen := x.Blocking && len(x.States) == 1
+							if idx := extractIdx(x, 0); idx != nil {
+								for key, val := range p.FactsAt(len(p.Blocks) - 1) {
+									if key.op == token.EQL && key.y != nil && val {
+										for _, pr := range [][2]ssa.Value{{key.x, key.y}, {key.y, key.x}} {
+											if strip(pr[0]) == idx {
+												if n, isC := constInt(pr[1]); isC && n == int64(k) {
+													chosen = true
+												}
+											}
+										}
+									}
+								}
+							}
+							isSend = chosen
 						}
 					}
 				}
@@ -813,10 +828,11 @@ func c09R2R3(c *Ctx) {
 			if sent > 1 {
 				fs3.add("offer", "a tube is offered to the acceptor more than once", p.Exit(), p)
 			}
-			// remote tubes (req false) must be offered on success
-			if isSuccess(p) {
-				if v, known := p.Holds(reqParam, len(p.Blocks)-1); known && !v && sent != 1 {
-					fs3.add("offer", "a remotely opened tube is created but not offered to the acceptor", p.Exit(), p)
+			// remote tubes (req false) must be offered on success, and whenever they were registered: a tube
+			// that is in the table answers the peer's repeated REQ itself and is never offered again
+			if p.Returns() != nil {
+				if v, known := p.Holds(reqParam, len(p.Blocks)-1); known && !v && sent != 1 && (isSuccess(p) || added) {
+					fs3.add("offer", "a remotely opened tube is registered in the tube table but not offered to the acceptor (the opener is answered and considers the tube open; the acceptor never sees it)", p.Exit(), p)
 				}
 			}
 		})
